@@ -1434,7 +1434,7 @@ func ipamRandomScenario(k int, env string, skip map[string]bool) []vt.M {
 		} else {
 			cf["pre"], cf["init"], cf["min"], cf["max"] = 0, "empty", 0, 3
 			sc = append(sc, vt.M{"a": "pod_create", "p": 1, "rdma": true}, vt.M{"a": "pod_create", "p": 2, "rdma": true}, vt.M{"a": "reconcile"}, vt.M{"a": "reconcile"},
-				vt.M{"a": "pod_delete", "p": 1}, vt.M{"a": "flush"}, vt.M{"a": "reconcile"}, vt.M{"a": "pod_create", "p": 3}, vt.M{"a": "pod_create", "p": 4}, vt.M{"a": "reconcile"}, rec())
+				vt.M{"a": "cni_add", "p": 1}, vt.M{"a": "pod_delete", "p": 1}, vt.M{"a": "flush"}, vt.M{"a": "reconcile"}, vt.M{"a": "pod_create", "p": 3}, vt.M{"a": "pod_create", "p": 4}, vt.M{"a": "reconcile"}, rec())
 		}
 	}
 	return sc
